@@ -1,6 +1,7 @@
 package main
 
 import (
+	"context"
 	"encoding/json"
 	"flag"
 	"fmt"
@@ -248,6 +249,9 @@ func (ob *Obligation) query(wantModel bool) string {
 	if ob.Expect == "sat" {
 		return ob.Script.QueryExcluding(ob.Goal, false, ob.cutDecls, ob.cutAsserts, ob.excluded)
 	}
+	if ob.sliced {
+		return ob.Script.QuerySlicedDepth(Not(ob.Goal), wantModel, ob.cutDecls, ob.cutAsserts, ob.excluded, ob.sliceDepth)
+	}
 	return ob.Script.QueryExcluding(Not(ob.Goal), wantModel, ob.cutDecls, ob.cutAsserts, ob.excluded)
 }
 
@@ -349,6 +353,34 @@ func dischargeSet(obls []*Obligation, o *options) float64 {
 		go func() {
 			defer wg.Done()
 			defer func() { <-sem }()
+			// first try the relevance slice of the background (sound for unsat); fall back to everything
+			if ob.Expect != "sat" && ob.Script != nil {
+				prev := ""
+				for _, depth := range []int{1, 2, 4, -1} {
+					ob.sliced, ob.sliceDepth = true, depth
+					sq := ob.query(false)
+					ob.sliced = false
+					if sq == prev {
+						continue
+					}
+					prev = sq
+					if o.dumpDir != "" {
+						os.MkdirAll(o.dumpDir, 0o755)
+						os.WriteFile(filepath.Join(o.dumpDir, fmt.Sprintf("%s.slice%d.smt2", sanitize(ob.Name), depth)), []byte(sq), 0o644)
+					}
+					sto := 2
+					if depth < 0 {
+						sto = 4
+					}
+					res := runOne(context.Background(), solvers[0], writeQuery(sq), sto)
+					if res.Answer == "unsat" {
+						res.Solver += fmt.Sprintf("+slice(depth=%d)", depth)
+						ob.Result, ob.All = res, []SolverResult{res}
+						ob.Status = "discharged"
+						return
+					}
+				}
+			}
 			q := ob.query(false)
 			if o.dumpDir != "" {
 				os.MkdirAll(o.dumpDir, 0o755)
